@@ -172,6 +172,7 @@ func (fe *FuncEnc) instr(ins ssa.Instruction, st *State) {
 		r := fe.newRef(st, x.Comment)
 		fe.vals[x] = r
 		fe.initZero(st, r, et)
+		fe.initGhost(st, r, et)
 	case *ssa.FieldAddr:
 		if _, ok := fe.localRoot(x.X); ok {
 			return
@@ -368,6 +369,34 @@ func (fe *FuncEnc) note(format string, args ...interface{}) {
 		}
 	}
 	fe.notes = append(fe.notes, s)
+}
+
+// initGhost gives the ghost fields of a fresh object (and of its embedded
+// struct values) their default values: empty set, 0, false.
+func (fe *FuncEnc) initGhost(st *State, r string, t types.Type) {
+	n, ok := t.(*types.Named)
+	if ok {
+		for key, g := range fe.eng.cs.Ghosts {
+			_ = key
+			if g.Type == n.Obj().Name() || (n.Obj().Pkg() != nil && g.Type == n.Obj().Pkg().Name()+"."+n.Obj().Name()) {
+				def := "0"
+				switch g.Sort {
+				case "bool":
+					def = "false"
+				case "set":
+					def = "((as const (Array Int Bool)) false)"
+				}
+				fe.storeLeaf(st, ghostVar(g), ghostSort(g), r, def)
+			}
+		}
+	}
+	if u, ok := t.Underlying().(*types.Struct); ok && !isValueLike(t) {
+		for i := 0; i < u.NumFields(); i++ {
+			if ft := u.Field(i).Type(); isStructVal(ft) {
+				fe.initGhost(st, fmt.Sprintf("(hv_sub %s %d)", r, fe.eng.subTag(typeLabel(t), i)), ft)
+			}
+		}
+	}
 }
 
 func (fe *FuncEnc) initZero(st *State, r string, t types.Type) {
@@ -771,6 +800,25 @@ func (fe *FuncEnc) checkPost(st *State, results []string, pos token.Pos) {
 	env := fe.envAt(st, nil)
 	env.old = fe.entry
 	fe.bindResults(env, fe.fn.Signature, fe.c, results)
+	// ghost assignments (all right-hand sides are evaluated first)
+	type gw struct {
+		g    *GhostField
+		addr string
+		val  string
+	}
+	var writes []gw
+	for _, gu := range fe.c.Ghost {
+		env.where = gu.Where
+		tgt := env.eval(gu.Target)
+		if !tgt.Addr || tgt.Leaf == nil || tgt.Leaf.ghost == nil {
+			fe.fail("%s: ghost assignment target %s is not a ghost field", gu.Where, gu.Target)
+		}
+		val := env.rvalue(env.eval(gu.Value))
+		writes = append(writes, gw{tgt.Leaf.ghost, tgt.T, val.T})
+	}
+	for _, w := range writes {
+		fe.storeLeaf(st, ghostVar(w.g), ghostSort(w.g), w.addr, w.val)
+	}
 	for _, en := range fe.c.Ensures {
 		fe.oblige(st, "post", en.Label, fe.evalBool(env, en.Expr, en.Where), pos, "postcondition: "+en.Src)
 	}
@@ -798,40 +846,50 @@ func (fe *FuncEnc) bindResults(env *Env, sig *types.Signature, c *FuncContract, 
 	}
 }
 
+// frameFormula states that heap variable hv (current version cur) agrees with
+// its entry value on every cell that existed at entry and is outside the
+// function's assigns clause. Returns "" when the whole variable is assignable.
+func (fe *FuncEnc) frameFormula(hv, cur string) string {
+	if fe.frameLocs == nil {
+		envOld := fe.envAt(fe.entry, nil)
+		envOld.old = fe.entry
+		fe.frameLocs = fe.assignLocs(envOld, fe.c.Assigns, fe.c.Where)
+		if fe.frameLocs == nil {
+			fe.frameLocs = []assignLoc{}
+		}
+	}
+	old := fe.heapGet(fe.entry, hv, fe.heapSorts[hv])
+	if cur == old {
+		return ""
+	}
+	x := "frame_x"
+	var excl []string
+	for _, l := range fe.frameLocs {
+		if l.hv != hv {
+			continue
+		}
+		if l.all {
+			return ""
+		}
+		if l.cond != "" {
+			excl = append(excl, strings.ReplaceAll(l.cond, "%x%", x))
+		} else {
+			excl = append(excl, eq(x, l.addr))
+		}
+	}
+	body := implies(and(fmt.Sprintf("(not (= %s 0))", x), fmt.Sprintf("(<= (hv_base %s) %s)", x, fe.entry.allocTop), not(or(excl...))), fmt.Sprintf("(= (select %s %s) (select %s %s))", cur, x, old, x))
+	return fmt.Sprintf("(forall ((%s Int)) (! %s :pattern ((select %s %s))))", x, body, cur, x)
+}
+
 // checkFrame: every heap variable written by the function agrees with its
 // entry value outside the declared assigns set (for cells that existed at entry).
 func (fe *FuncEnc) checkFrame(st *State, pos token.Pos) {
-	envOld := fe.envAt(fe.entry, nil)
-	envOld.old = fe.entry
-	locs := fe.assignLocs(envOld, fe.c.Assigns, fe.c.Where)
 	for _, hv := range sortedKeys(st.heap) {
-		if strings.HasPrefix(hv, "MH:") || strings.HasPrefix(hv, "MV:") || strings.HasPrefix(hv, "F:") || strings.HasPrefix(hv, "M:") {
-			cur := st.heap[hv]
-			old := fe.heapGet(fe.entry, hv, fe.heapSorts[hv])
-			if cur == old {
-				continue
-			}
-			x := fe.sc.declare("frame.x", sInt)
-			var excl []string
-			whole := false
-			for _, l := range locs {
-				if l.hv != hv {
-					continue
-				}
-				if l.all {
-					whole = true
-				}
-				if l.cond != "" {
-					excl = append(excl, strings.ReplaceAll(l.cond, "%x%", x))
-				} else {
-					excl = append(excl, eq(x, l.addr))
-				}
-			}
-			if whole {
-				continue
-			}
-			goal := implies(and(fmt.Sprintf("(<= (hv_base %s) %s)", x, fe.entry.allocTop), not(or(excl...))), fmt.Sprintf("(= (select %s %s) (select %s %s))", cur, x, old, x))
-			fe.oblige(st, "frame", hv, goal, pos, "nothing outside the assigns clause is modified in "+hv)
+		if !isHeapVarName(hv) {
+			continue
+		}
+		if f := fe.frameFormula(hv, st.heap[hv]); f != "" {
+			fe.oblige(st, "frame", hv, f, pos, "nothing outside the assigns clause is modified in "+hv)
 		}
 	}
 }
